@@ -29,6 +29,12 @@ pub const CLASSES: &[&[&str]] = &[
     &["    ", "\u{65e5}\u{672c}", "\x1b[1m>>> \x1b[0m", "/// "],
     &["\x1b[0m", "\x1b]8;;\x1b\\"],
     &["          ", "\u{65e5}\u{672c}\u{65e5}\u{672c}\u{65e5}", "0123456789"],
+    // 70 columns: longer than any small fixed buffer
+    &[
+        "                                                                      ",
+        "\u{65e5}\u{65e5}\u{65e5}\u{65e5}\u{65e5}\u{65e5}\u{65e5}\u{65e5}\u{65e5}\u{65e5}\u{65e5}\u{65e5}\u{65e5}\u{65e5}\u{65e5}\u{65e5}\u{65e5}\u{65e5}\u{65e5}\u{65e5}\u{65e5}\u{65e5}\u{65e5}\u{65e5}\u{65e5}\u{65e5}\u{65e5}\u{65e5}\u{65e5}\u{65e5}\u{65e5}\u{65e5}\u{65e5}\u{65e5}\u{65e5}",
+        "> > > > > > > > > > > > > > > > > > > > > > > > > > > > > > > > > > > ",
+    ],
 ];
 
 fn bodies_of(text: &str, spec: &OptSpec) -> Result<Vec<String>, String> {
